@@ -296,7 +296,7 @@ def run(facts, tier):
             der = lb.derived_from([1])
             calls_it = [i for i, t in lb.calls() if re.search(r"core::ops::function::(FnOnce::call_once|FnMut::call_mut|Fn::call)$", t.get("fn") or "") and set(lb.arg_locals(i, 0)) & der]
             handed_on = [i for i, t in lb.calls() if i not in calls_it and set(lb.arg_locals(i)) & der]
-            ok = not calls_it and bool(handed_on)
+            ok = not calls_it and (bool(handed_on) or 0 in der)   # handed to a deferring source, or stored in the iterator that is returned
         l3.examined("lazy", True, {"lazy_calls_its_closure_itself": not ok})
         if not ok:
             l3.violate("lazy", "`lazy` no longer defers the construction of its iterator: it calls its closure parameter itself (or drops it) instead of handing it to a source that calls it on the first `next`", where=lz["sp"])
